@@ -64,6 +64,7 @@ def input_assembly(
     min_scaffolds=1,
     gap_skip=1,  # a gap separates two contigs with probability (5-gap_skip)/5
     texel_sized_gaps=False,  # gaps of about two texels (pieces that cover mostly gap)
+    double_gaps=False,  # sometimes two gap rows between two contigs (e.g. a scaffold gap next to a centromere gap)
     terminal_gaps=False,  # FASTA-derived class with terminal N runs: scaffolds may start / end with a gap row (C01, C06 only)
 ):
     n_scaffolds = draw(st.integers(min_scaffolds, max_scaffolds))
@@ -104,6 +105,11 @@ def input_assembly(
                     rows.append(["G", glen, gtype])
                     if shape == "fasta":
                         pos += glen
+                    if double_gaps and draw(st.integers(0, 3)) == 0:
+                        g2 = draw(st.sampled_from([1, 50, 3000]))
+                        rows.append(["G", g2, "centromere"])
+                        if shape == "fasta":
+                            pos += g2
             if shape == "fasta":
                 rows.append(["F", sname, pos, pos + ln - 1, 1])
                 pos += ln
@@ -555,16 +561,19 @@ def tagged_case(
         painted_sc = ordered
     # interleave unpainted scaffolds at drawn positions, keeping the painted order
     final = list(painted_sc)
-    for s in unpainted_sc:
-        final.insert(draw(st.integers(0, len(final))), s)
+    if draw(st.booleans()):
+        final += unpainted_sc  # as PretextView writes them: painted chromosomes first, unplaced scaffolds after
+    else:
+        for s in unpainted_sc:
+            final.insert(draw(st.integers(0, len(final))), s)
 
     # name tags (unique per haplotype), at most one per scaffold
     pool = {h: list(NAME_TAGS) for h in (haps or [None])}
     used = []
     for s in final:
-        if s["painted"] and draw(st.integers(0, 4)) == 0:
+        if s["painted"] and (draw(st.integers(0, 4)) == 0 or (two and used and s["hap"] == haps[1] and draw(st.booleans()))):
             p = pool[s["hap"]]
-            if two and used and draw(st.integers(0, 1)) == 0 and used[-1] in p:
+            if two and used and draw(st.integers(0, 2)) > 0 and used[-1] in p:
                 # the same chromosome (e.g. X) painted in both haplotypes
                 p.remove(used[-1])
                 s["name_tag"] = used[-1]
